@@ -54,6 +54,11 @@ func c11MergeCfg(e int, alias ...bool) bs.BloomSearchEngineConfig {
 		c.MaxRowGroupRows = 2
 		c.MaxFileSize = 900
 		c.MaxFilesToMergePerOperation = 3
+	case 4:
+		// an engine restarted with a different index list: blocks that carry the key n and
+		// blocks that carry none must still not be combined
+		c.MinMaxIndexes = []string{"other"}
+		c.MaxFilesToMergePerOperation = 4
 	case 3:
 		// byte limit between two and three of batch 5's highly compressible one-row blocks
 		// (uncompressed ~250 bytes each, a few dozen compressed)
@@ -82,7 +87,7 @@ func c11Batch(b, seq int) []map[string]any {
 	}
 }
 
-const c11Batches, c11Engines = 6, 4
+const c11Batches, c11Engines = 6, 5
 
 type c11op struct {
 	merge bool
@@ -318,7 +323,7 @@ func checkMergeEdge(hist string, w *World, cfg bs.BloomSearchEngineConfig, befor
 		// partition + minmax cover on the merged state
 		n := 0
 		var fs []Finding
-		checkWorldFiles(w, fileOpts{c18: true}, cfg.MinMaxIndexes, &fs, &n)
+		checkWorldFiles(w, fileOpts{c18: true}, c11IngestCfg().MinMaxIndexes, &fs, &n)
 		for _, f := range fs {
 			if strings.HasPrefix(f.Sig, "c18-partition") || strings.HasPrefix(f.Sig, "c18-minmax") || strings.HasPrefix(f.Sig, "c18-unknown-row") {
 				add("c11-"+f.Sig, "C11 after merge: %s", f.Msg)
